@@ -120,6 +120,21 @@ func NewKit() *Kit {
 	return k
 }
 
+// NewQuietKit is NewKit without monitor and with the event stream detached (see
+// actor.VerifMuteEvents): for scenarios whose oracle does not read events.
+func NewQuietKit() *Kit {
+	vsched.BeginSetup()
+	k := &Kit{inRecv: map[string]bool{}, exitVC: map[string]vsched.VC{}, incs: map[string]int{}}
+	e, err := actor.NewEngine(actor.NewEngineConfig())
+	if err != nil {
+		panic(err)
+	}
+	k.E = e
+	vsched.Quiesce()
+	actor.VerifMuteEvents(e)
+	return k
+}
+
 func (k *Kit) add(e Ev) {
 	e.VC = vsched.Clock()
 	e.Thread = vsched.Self()
